@@ -87,6 +87,16 @@ theorem no_password_key_read :
     (viperKeyLiterals.all fun k => k != ".password" && k != "password" && k != ".secret" && k != ".token" &&
       k != ".sasl-password" && k != ".api-key") = true := by decide
 
+/-- the only reads of package httpserver that return a whole TABLE (regenerated from the source on every
+    run): the six kind tables, of which only the keys are shown (module lists) or tested
+    (`moduleConfigured`), and the `extras` map of a notifier module — which the model carries
+    (`Cfg.vLeaves`) and the differential run compares entry by entry.  A handler that starts
+    returning another table (a new map-valued setting, a module's raw section) breaks this. -/
+theorem table_reads_are_the_modelled_ones :
+    viperTableReads = ["GetStringMap \"cluster\"", "GetStringMap \"consumer\"", "GetStringMap \"evaluator\"",
+      "GetStringMap \"httpserver\"", "GetStringMap \"notifier\"", "GetStringMap \"storage\"", "GetStringMap _",
+      "GetStringMapString _+\".extras\""] := by decide
+
 /-- the field tables of the model read no key suffix that the source does not contain: every suffix
     the model's handlers read is one of the generated literals (a handler that starts reading a new
     key makes the differential disagree; a literal that disappears breaks this) -/
